@@ -129,7 +129,17 @@ class Run:
                     c = fr.choice([1, 2, 3, 4, 5, 8, 13, 20, 23, 24, 25, 40, 100])
                     sched_.append(c)
                     left -= c
-            sock = ScriptSock(stream, sched_, tail="max", on_eof=self._on_eof(p))
+            tmo = ()
+            if frag is not None and frag % 3 == 0:
+                # an idle read timeout BETWEEN two messages of this peer (the socket has a timeout; the peer was just slow): the loop carries on
+                import random as _r2
+                bounds, off = [], 0
+                for c_, pl_, _, _ in ms:
+                    bounds.append(off)
+                    off += 24 + len(pl_)
+                tmo = set(_r2.Random(frag).sample(bounds, k=min(len(bounds), 1 + frag % 2)))
+                self.timeouts_planned = getattr(self, "timeouts_planned", 0) + len(tmo)
+            sock = ScriptSock(stream, sched_, tail="max", on_eof=self._on_eof(p), timeout_at=tmo)
             if serialised and granularity == "container":
                 sock.sendall = self._sendall_point(sock)
             self.socks.append(sock)
@@ -312,7 +322,7 @@ def gen_cases(tier, seed):
 
 def required(tier):
     return {"dfs.schedules": 500, "dfs.subtrees_exhausted": 40, "random.container.schedules": 5000, "random.line.schedules": 400,
-            "stress.runs": 100, "stress.long_messages": 5000, "points.container": 20000, "points.line": 10000, "class.interleaved_enqueue_dequeue_window": 500, "class.short_reads": 1000,
+            "stress.runs": 100, "stress.long_messages": 5000, "points.container": 20000, "points.line": 10000, "class.interleaved_enqueue_dequeue_window": 500, "class.short_reads": 1000, "class.idle_timeouts_mid_stream": 300,
             "set:schedules": 4000}
 
 
@@ -338,6 +348,9 @@ def _report(ctx, run, trace, scenario, gran, strategy):
         ctx.count("class.interleaved_enqueue_dequeue_window")
     if run.frag is not None:
         ctx.count("class.short_reads")
+    tr = sum(s_.timeouts_raised for s_ in run.socks)
+    if tr:
+        ctx.count("class.idle_timeouts_mid_stream", tr)
     for key, detail in run.check():
         ctx.violation(f"{key}/{gran}" + ("+short-reads" if run.frag is not None else ""), f"scenario {scenario} strategy {strategy} frag {run.frag}: {detail}",
                       sub={"scenario": scenario, "gran": gran, "tids": tids, "frag": run.frag})
